@@ -108,10 +108,19 @@ Definition adapter {V} (args : list string) (e : callenv V) : list (option V) :=
 (* ------------------------------------------------------------------ *)
 (* The decorators and the _State constructor                            *)
 
+(* how the source turns the function into a state.  [state] has two call
+   paths:  state(first=.., must_finish=..)  without the function returns a
+   decorator (the factory spelling  @state(first=True) def k / k =
+   state(first=True)(f)),  state(f, first=.., must_finish=..)  with the function
+   returns the wrapper at once (bare  @state def k  is  state(k)  with no
+   option;  k = state(f, first=True),  state(f=f, first=True)  and
+   @functools.partial(state, first=True) def k  pass function and options in
+   ONE call). *)
 Inductive deco :=
-| DState (first must_finish : bool)     (* @state, @state(first=.., must_finish=..)    *)
-| DTimed (first must_finish : bool)     (* @timed_state(duration=.., first=.., ..)     *)
-| DDefault.                             (* @default_state                              *)
+| DState (first must_finish : bool)     (* state(first=.., must_finish=..)(f)          *)
+| DStateCall (first must_finish : bool) (* state(f, first=.., must_finish=..); @state   *)
+| DTimed (first must_finish : bool)     (* timed_state(duration=.., first=.., ..)(f)   *)
+| DDefault.                             (* default_state(f)                            *)
 
 (* a decorated function: __name__, parameters, cleaned docstring *)
 Record decl := { d_fname : string; d_params : list param; d_doc : option string; d_deco : deco }.
@@ -139,25 +148,65 @@ Inductive deferr :=
 Definition check_name (reserved : list string) (n : string) : result unit deferr :=
   if mem n reserved then Err EInvalidStateName else Ok tt.
 
-Definition construct (reserved : list string) (d : decl) : result sdata deferr :=
+(* _State.__init__(f, first=False, must_finish=False, *, duration=None,
+   is_default=False): name check, signature loop, then the fields.  [d] is the
+   function (its __name__, parameters, docstring); [timed] is
+   duration is not None. *)
+Definition init_state (reserved : list string) (d : decl) (first must_finish timed is_default : bool)
+  : result sdata deferr :=
   match check_name reserved (d_fname d) with
   | Err e => Err e
   | Ok _ =>
     match validate_sig (d_params d) with
     | Err e => Err (ESig e)
     | Ok args =>
-      Ok (match d_deco d with
-          | DState f mf => {| s_name := d_fname d; s_desc := d_doc d; s_first := f;
-                              s_must_finish := mf; s_default := false; s_timed := false;
-                              s_args := args |}
-          | DTimed f mf => {| s_name := d_fname d; s_desc := d_doc d; s_first := f;
-                              s_must_finish := mf; s_default := false; s_timed := true;
-                              s_args := args |}
-          | DDefault => {| s_name := d_fname d; s_desc := d_doc d; s_first := false;
-                           s_must_finish := true; s_default := true; s_timed := false;
-                           s_args := args |}
-          end)
+      Ok {| s_name := d_fname d; s_desc := d_doc d; s_first := first;
+            s_must_finish := must_finish; s_default := is_default; s_timed := timed;
+            s_args := args |}
     end
+  end.
+
+(* def state(f=None, *, first=False, must_finish=False):
+       if f is None:
+           return lambda f: _State(f, first, must_finish)
+       return _State(f, first, must_finish)                                  *)
+Inductive state_ret :=
+| RDecorator (dec : decl -> result sdata deferr)     (* the lambda *)
+| RWrapper (r : result sdata deferr).                (* the _State (or the exception of its __init__) *)
+
+Definition state_fn (reserved : list string) (f : option decl) (first must_finish : bool) : state_ret :=
+  match f with
+  | None => RDecorator (fun g => init_state reserved g first must_finish false false)
+  | Some g => RWrapper (init_state reserved g first must_finish false false)
+  end.
+
+(* timed_state(duration=.., next_state=None, first=False, must_finish=False),
+   all keyword-only, returns  decorator(f) = _State(f, first, must_finish, duration=duration) *)
+Definition timed_state_fn (reserved : list string) (first must_finish : bool)
+  : decl -> result sdata deferr :=
+  fun g => init_state reserved g first must_finish true false.
+
+(* default_state(f) = _State(f, first=False, must_finish=True, is_default=True) *)
+Definition default_state_fn (reserved : list string) (g : decl) : result sdata deferr :=
+  init_state reserved g false true false true.
+
+(* the decorator expression of the source applied to the function.  (The
+   second branch of the two inner matches cannot occur: [state_fn] without a
+   function always returns the decorator, with a function never.) *)
+Definition construct (reserved : list string) (d : decl) : result sdata deferr :=
+  match d_deco d with
+  | DState f mf =>                       (* state(first=f, must_finish=mf)(d) *)
+      match state_fn reserved None f mf with
+      | RDecorator dec => dec d
+      | RWrapper r => r
+      end
+  | DStateCall f mf =>                   (* state(d, first=f, must_finish=mf) *)
+      match state_fn reserved (Some d) f mf with
+      | RDecorator dec => dec d
+      | RWrapper r => r
+      end
+  | DTimed f mf => timed_state_fn reserved f mf d
+  | DDefault => default_state_fn reserved d
   end.
 
 (* _State.__call__ with any positional and keyword arguments *)
@@ -175,7 +224,7 @@ Definition set_name (owner_is_sm : bool) (attr_name state_name : string) : resul
 (* A class statement                                                    *)
 
 (* what a class body binds, in source order:
-     SState d     a decorated function  (@state def k(..) / k = state(f))
+     SState d     a decorated function  (@state def k(..) / k = state(..)(f) / k = state(f, ..))
      SOther       anything that is not a state (plain method, constant)
      SLocal k'    k = k'                 the object the class namespace holds under k' at
                                          that line (a second binding of the same object)
